@@ -790,7 +790,6 @@ class NAHooks(Hooks):
         if name in ('reshape', 'squeeze', 'ravel', 'transpose', 'swapaxes',
                     'flatten', 'repeat', 'take'):
             def m(*args, **k):
-                k.pop('order', None)
                 args = [tuple(x) if isinstance(x, list) else x
                         for x in args]
                 try:
